@@ -42,6 +42,13 @@ static bool untrack(void *p)
     return false;
 }
 
+__attribute__((noinline)) void vh_dirty_stack(void)
+{
+    volatile unsigned char buf[192 * 1024];
+    memset((void *)buf, 0xff, sizeof(buf));
+    __asm__ volatile("" : : "r"(buf) : "memory");
+}
+
 long vh_live_count(void) { return live_count; }
 void vh_live_dump(void)
 {
@@ -71,7 +78,11 @@ void *__wrap_malloc(size_t n)
     void *p;
     if (fault()) return NULL;
     p = __real_malloc(n);
-    if (vh_in_lib > 0) track(p, n);
+    if (vh_in_lib > 0) {
+	track(p, n);
+	/* make a read of memory the library never wrote deterministic and visible (NaN as a double) */
+	if (p != NULL) memset(p, 0xff, n);
+    }
     return p;
 }
 
